@@ -36,6 +36,7 @@ from docsem import _A, to_wire
 
 TITLE = "trial count and sequence lengths"
 LEVEL = "proof"
+DOMAINS = ["Front", "Design"]
 
 STRATEGIES = ("IterateSATGen", "RandomGen", "CMSGen", "UniGen", "IterateGen", "UniformGen", "SMGen")
 
@@ -282,13 +283,13 @@ def real_trials_view(block):
 
 
 def model_trials_view(out):
-    """min_raw min_rounded early (preambles) for_crossings trials weights common geometry (sizes) ->
-    the same rendering as real_trials_view (without min_raw / early / for_crossings)."""
+    """min_raw min_rounded (preambles) for_crossings trials weights common geometry (sizes) ->
+    the same rendering as real_trials_view (without min_raw / for_crossings)."""
     from common import parse_sexp
     r = parse_sexp(out)
-    if len(r) != 10:
+    if len(r) != 9:
         return "!" + out
-    raw, rounded, early, pre, fc, T, ws, common, geo, sizes = r
+    raw, rounded, pre, fc, T, ws, common, geo, sizes = r
 
     def sh(x):
         if isinstance(x, list):
@@ -367,7 +368,7 @@ def extra_programs(rng):
                        "rcc": True, "mode": mode, "alignment": al})
         return blocks[-1]["id"]
     shape = rng.choice(["nest3l", "nest3r", "merge-al", "repeat-multi", "repeat-merge", "repeat-repeat", "nest-min", "empty-outer",
-                        "nest-trans", "repeat-trans", "merge1", "merge3", "nest-multi", "cross-min", "multi-min"])
+                        "nest-trans", "repeat-trans", "merge1", "merge3", "nest-multi", "cross-min", "multi-min", "nest-inpre", "nest-inpre"])
     al = rng.choice(["equal preamble", "parallel start", "post preamble"])
     mode = rng.choice(["weight", "repeat", "equal"])
     inner_cs = lambda fid, lev: maybe([lambda: krow("AtMostKInARow", fid, lev, rng.choice([1, 2])),  # noqa
@@ -434,6 +435,21 @@ def extra_programs(rng):
             b = multi([1, 4], [ic], inner_cs(1, "b0"), "weight", al)
         blocks.append({"id": 2, "kind": "Nest", "outer": a, "inner": b, "constraints": [],
                        "alignment": rng.choice([None, None, al])})
+    elif shape == "nest-inpre":
+        # the inner block has preamble trials: inner_len = trials - preamble
+        ic = rng.choice([[1, 4], [4]])
+        r = rng.random()
+        if r < 0.4:       # both blocks with a crossed transition: equal preambles
+            a = cross([0, 3], rng.choice([[0, 3], [3]]), [])
+            b = cross([1, 4], ic, inner_cs(1, "b0"))
+            nal = None
+        else:
+            al2 = rng.choice(["parallel start", "post preamble"])
+            a = multi([0, 3], [rng.choice([[0], [0, 3]])], [], "weight", al2)
+            b = multi([1, 4], [ic], inner_cs(1, "b0"), "weight", al2)
+            nal = rng.choice([None, al2])
+        blocks.append({"id": 2, "kind": "Nest", "outer": a, "inner": b, "constraints": maybe([lambda: mint(rng.choice([7, 12]))]),
+                       "alignment": nal})
     elif shape == "repeat-trans":
         a = cross([0, 1, 3], rng.choice([[0, 3], [3], [1, 3]]), inner_cs(0, "a0"))
         blocks.append({"id": 1, "kind": "Repeat", "block": a, "constraints": [mint(rng.choice([6, 9, 11, 14]))]})
@@ -456,10 +472,31 @@ def extra_programs(rng):
     return {"factors": factors, "constraints": cons, "blocks": blocks, "main": blocks[-1]["id"], "shape": shape}
 
 
+def hand_programs():
+    """Minimal programs for the findings this check has made."""
+    f = F(0, "f", ["a", "b"])
+    o = F(0, "o", ["a", "b"])
+    i = F(1, "i", ["x", "y"])
+    out = []
+    out.append(("repeat-4-of-2", {
+        "factors": [f], "constraints": [{"id": 0, "kind": "MinimumTrials", "trials": 4}],
+        "blocks": [{"id": 0, "kind": "CrossBlock", "design": [0], "crossing": [0], "constraints": [], "rcc": True},
+                   {"id": 1, "kind": "Repeat", "block": 0, "constraints": [0]}], "main": 1}))
+    for extra in ([], [{"id": 1, "kind": "Pin", "index": 0, "level": [1, "x"]}],
+                  [{"id": 1, "kind": "AtLeastKInARow", "k": 1, "level": [1, "x"]}]):
+        cons = [{"id": 0, "kind": "MinimumTrials", "trials": 5}] + extra
+        out.append(("nest-min5" + ("-" + extra[0]["kind"] if extra else ""), {
+            "factors": [o, i], "constraints": cons,
+            "blocks": [{"id": 0, "kind": "CrossBlock", "design": [0], "crossing": [0], "constraints": [], "rcc": True},
+                       {"id": 1, "kind": "CrossBlock", "design": [1], "crossing": [1], "constraints": [], "rcc": True},
+                       {"id": 2, "kind": "Nest", "outer": 0, "inner": 1, "constraints": [c["id"] for c in cons]}], "main": 2}))
+    return out
+
+
 def gen_programs(ctx, n):
     from props.c14 import nest_complex
     rng = ctx.rng
-    out = [(tag, p) for tag, p in gen_design.corpus()]
+    out = hand_programs() + [(tag, p) for tag, p in gen_design.corpus()]
     shapes = ["cross", "multi", "repeat", "merge", "nest", "cross", "repeat", "multi"]
     i = 0
     while len(out) < n:
@@ -497,23 +534,28 @@ def doc_trials(program):
         return ("unsupported", "docsem: %s" % type(e).__name__)
 
 
-def length_check(program, strategies, n=2, budget=None):
-    """[(strategy, status, detail)]: status in ok | refused | wrong-length | missing-factor."""
+def length_check(program, strategies, n=2, timeout=6):
+    """[(strategy, status, detail)]: status in ok | refused | timeout | empty | wrong-length | missing-factor.
+    Every strategy but IterateSATGen runs in a forked child with a timeout: the C
+    libraries of the uniform samplers may terminate the process, RandomGen and SMGen
+    may search without bound."""
     names = ir.user_factor_names(program)
     out = []
+    b = ir.build(program)
+    blk = ir.main_block(b, program)
+    if blk is None:
+        return out
+    with ir.quiet():
+        T = blk.trials_per_sample()
     for s in strategies:
-        b = ir.build(program)
-        blk = ir.main_block(b, program)
-        if blk is None:
-            return out
-        with ir.quiet():
-            T = blk.trials_per_sample()
-        t0 = time.time()
-        if s in ("UniGen", "CMSGen", "UniformGen"):
-            # their C libraries may terminate the process (e.g. on an unsatisfiable formula)
-            r = ir.synthesize_isolated(program, n, s)
+        if s == "IterateSATGen":
+            b2 = ir.build(program)
+            r = ir.synthesize(ir.main_block(b2, program), n, s)
         else:
-            r = ir.synthesize(blk, n, s)
+            r = ir.synthesize_isolated(program, n, s, timeout=timeout)
+        if r[0] == "crash":
+            out.append((s, "timeout" if r[1] in (9, -9) else "refused", "process status %s" % (r[1],)))
+            continue
         if r[0] != "ok":
             out.append((s, "refused", str(r[1])))
             continue
@@ -531,8 +573,6 @@ def length_check(program, strategies, n=2, budget=None):
         if status == "ok" and not r[1]:
             status = "empty"
         out.append((s, status, detail))
-        if budget is not None and time.time() - t0 > budget:
-            break
     return out
 
 
@@ -540,18 +580,19 @@ def length_check(program, strategies, n=2, budget=None):
 
 def run(ctx, res):
     n = 150 if ctx.quick else 1200
-    nlen = 60 if ctx.quick else 400
+    nlen = 45 if ctx.quick else 400
     progs = gen_programs(ctx, n)
+    lstep = max(1, len(progs) // nlen)
     res.rule = ("%d programs: gen_design.gen_program (cross/multi/repeat/merge/nest, derived factors within/transition/window, all "
                 "constraint kinds, weights), c14.nest_complex, a structural family (Nest in Nest, Merge of 1-3 blocks with alignments, "
                 "Repeat of MultiCrossBlock/Merge/Repeat, MinimumTrials at every level with Pin/AtLeastKInARow, empty crossings, crossed "
                 "transitions under Nest/Repeat) and the corpus; every block of every program; non-trivial = a block whose trial count "
-                "is not the plain product of level counts of one crossing; lengths on the first %d programs with every offline strategy"
+                "is not the plain product of level counts of one crossing; lengths on about %d of the programs (evenly spread) with every offline strategy"
                 % (n, nlen))
     lines = []
     expect = []
     stats = {"blocks": 0, "rejected-blocks": 0, "doc-compared": 0, "doc-unsupported": 0, "length-runs": 0, "length-refused": 0,
-             "early-cached": 0, "sustain>1": 0, "preamble>0": 0, "min_trials>0": 0, "weights>1": 0}
+             "sustain>1": 0, "preamble>0": 0, "min_trials>0": 0, "weights>1": 0}
     shapes = {}
     found = []
     for idx, (tag, p) in enumerate(progs):
@@ -610,12 +651,12 @@ def run(ctx, res):
                         "preamble_sizes": list(blk.preamble_sizes), "crossing_weights": list(blk.crossing_weights),
                         "sustain": list(blk.crossing_sustain_counts), "min_trials": blk.min_trials})
         # ---- search 2: lengths of returned sequences
-        if idx < nlen and T <= 40:
-            for s, status, detail in length_check(p, STRATEGIES, n=2):
+        if (idx < 4 or idx % lstep == 0) and T <= 40:
+            for s, status, detail in length_check(p, STRATEGIES, n=2, timeout=(5 if ctx.quick else 20)):
                 stats["length-runs"] += 1
                 res.count(None, nontrivial=False)
-                if status == "refused":
-                    stats["length-refused"] += 1
+                if status in ("refused", "timeout", "empty"):
+                    stats["length-" + status] = stats.get("length-" + status, 0) + 1
                 elif status == "wrong-length":
                     found.append(("length:%s:%s" % (s, main_kind(p)),
                                   "%s returns a sequence with %d entries for factor %s of a %s block whose trials_per_sample() is %d"
@@ -661,8 +702,6 @@ def run(ctx, res):
             res.layer("L1-trials", ok)
             if not ok:
                 corr_bad.append(("trials", p, real, mv))
-            elif " true " in mod:
-                stats["early-cached"] += 1
         else:
             ok = (real == mod)
             res.layer("L1-trreq", ok)
@@ -677,13 +716,12 @@ def run(ctx, res):
         seen.add(sig)
         res.violations.append(Violation(sig, what + "  program=" + json.dumps(p, sort_keys=True)[:900],
                                         {"program": p, "detail": detail, "sig": sig}, failing_input=concrete))
-    if corr_bad and not [f for f in found if f[4]]:
+    if corr_bad:
         kind, p, real, mod = corr_bad[0]
         res.violations.append(Violation(
             "corr:L1-" + kind, "model Front/%s.v and the real constructors disagree on %d observations, first: real=%s model=%s"
             % ("Create" if kind == "create" else "Trials", len(corr_bad), real[:300], mod[:300]),
             {"layer": "L1-" + kind, "program": p, "real": real[:2000], "model": mod[:2000], "theorems": ["C16_*"]}, failing_input=False))
-    elif corr_bad:
         res.notes.append("model/code disagreements: %d (first layer L1-%s: real=%s model=%s)" % (
             len(corr_bad), corr_bad[0][0], corr_bad[0][2][:200], corr_bad[0][3][:200]))
     res.notes.append("L1: _create arguments per constructor (Front/Create.v), trial arithmetic on the flat record (Front/Trials.v); "
